@@ -107,13 +107,14 @@ CHECKS = {
             {"pkg": TOK, "harness": "VxC08_TokReuse4", "tiers": ["thorough"], "expect_asserts": ["C08.tok_same_tokens", "C08.tok_same_spans"]}],
     },
     "C09": {
-        "bounds": {"quick": "cleanliness: every Get*/Put* pair of pkg/sql/ast/pool.go (generated from the current source), released directly and through the tree-release path, with (a) every field populated and (b) each single field populated in turn (type-directed, symbolic contents; interface fields hold a shared sentinel node); aliasing: every history of <= 3 steps over {parse one of 7 texts and hold, parse and release, release a held tree} with all held trees frozen; tokenizer: two consecutive Tokenize calls (same and pooled instance) over all inputs <= 3 bytes of the comment alphabet with the first call's tokens and comments frozen",
+        "bounds": {"quick": "cleanliness: every Get*/Put* pair of pkg/sql/ast/pool.go (generated from the current source), released directly and through the tree-release path, with (a) every field populated and (b) each single field populated in turn (type-directed, symbolic contents; interface fields hold a shared sentinel node); aliasing: every history of <= 3 steps over {parse one of 7 texts and hold, parse and release, release a held tree} with all held trees frozen; transform rules: every pair of 15 rule values (AddWhereFromSQL, AddJoinFromSQL, SetLimit/Offset, AddOrderBy, ReplaceTable, AddTableAlias, QualifyColumns, Remove/ReplaceColumn, AddSelectStar, RemoveWhere/Limit/OrderBy/Join) applied to two trees (4 texts each), the second frozen while the first is released, no pooled object put twice; tokenizer: two consecutive Tokenize calls (same and pooled instance) over all inputs <= 3 bytes of the comment alphabet with the first call's tokens and comments frozen",
                    "thorough": "histories of <= 4 steps; tokenizer inputs <= 4 bytes"},
         "outside": "goroutine interleavings (C10); extracted lists and scan results (fresh slices per call by construction; not asserted); Fill depth 2",
         "assumptions": ["sync.Pool is a LIFO stack: Get returns the most recently Put object (realisable on a single P without GC), PoolGC empties the pools"],
         "runs": [
             {"pkg": "pkg/sql/ast", "harness": "VxC09_Clean", "generate": "c09_pools", "expect_asserts": ["C09.clean"]},
             {"pkg": "pkg/sql/ast", "harness": "VxC09_ASTContainer", "expect_asserts": ["C09.clean_container"]},
+            {"pkg": "pkg/transform", "harness": "VxC09_Transform", "expect_asserts": ["C09.transform_independent"], "generic": ["pool_double_put"]},
             {"pkg": "pkg/gosqlx", "harness": "VxC09_History3", "tiers": ["quick"], "args": {"replace": "context.WithTimeout=VxTimeoutCtx"}, "generic": ["pool_double_put"]},
             {"pkg": "pkg/gosqlx", "harness": "VxC09_History4", "tiers": ["thorough"], "args": {"replace": "context.WithTimeout=VxTimeoutCtx"}, "generic": ["pool_double_put"]},
             {"pkg": TOK, "harness": "VxC09_TokAlias3", "tiers": ["quick"]},
